@@ -45,6 +45,7 @@ import (
 	"github.com/sourcegraph/zoekt"
 	"github.com/sourcegraph/zoekt/internal/ctags"
 	"github.com/sourcegraph/zoekt/internal/tenant"
+	"github.com/sourcegraph/zoekt/internal/verifhook"
 )
 
 var DefaultDir = filepath.Join(os.Getenv("HOME"), ".zoekt")
@@ -685,6 +686,7 @@ func (b *Builder) Finish() error {
 	if b.buildError != nil {
 		for tmp := range b.finishedShards {
 			log.Printf("Builder.Finish %s", tmp)
+			verifhook.FS("remove-tmp", tmp)
 			os.Remove(tmp)
 		}
 		b.finishedShards = map[string]string{}
@@ -787,6 +789,7 @@ func (b *Builder) Finish() error {
 	}
 
 	for tmp, final := range artifactPaths {
+		verifhook.FS("rename", tmp, final)
 		if err := os.Rename(tmp, final); err != nil {
 			b.buildError = err
 			continue
@@ -803,11 +806,13 @@ func (b *Builder) Finish() error {
 			if !strings.HasSuffix(p, ".zoekt") {
 				continue
 			}
+			verifhook.FS("tombstone", p)
 			err := SetTombstone(p, b.opts.RepositoryDescription.ID)
 			b.buildError = err
 			continue
 		}
 		log.Printf("removing old shard file: %s", p)
+		verifhook.FS("remove", p)
 		if err := os.Remove(p); err != nil {
 			b.buildError = err
 		}
@@ -1086,6 +1091,7 @@ func (b *Builder) writeShard(fn string, ib *ShardBuilder) (*finishedShard, error
 		return nil, err
 	}
 
+	verifhook.FS("create", fn)
 	f, err := os.CreateTemp(dir, filepath.Base(fn)+".*.tmp")
 	if err != nil {
 		return nil, err
@@ -1097,6 +1103,7 @@ func (b *Builder) writeShard(fn string, ib *ShardBuilder) (*finishedShard, error
 	}
 
 	defer f.Close()
+	verifhook.FS("write", f.Name())
 	if err := ib.Write(f); err != nil {
 		return nil, err
 	}
@@ -1104,6 +1111,7 @@ func (b *Builder) writeShard(fn string, ib *ShardBuilder) (*finishedShard, error
 	if err != nil {
 		return nil, err
 	}
+	verifhook.FS("close", f.Name())
 	if err := f.Close(); err != nil {
 		return nil, err
 	}
